@@ -1,5 +1,5 @@
 """C04 - the sample log likelihood is the weighted sum of per-observation values."""
-CONTRACT_MODULES = ['c02_outputs']
+CONTRACT_MODULES = ['c02_outputs', 'c15_iterations']
 LEVEL = 'other'
 TRUSTED = ['pyvc', 'z3 5.1.0 / cvc5 1.0.3', 'ENGINE-SPEC: weighted sum over observations, thread- and order-independent (assumed; sampled)']
 ASSUMPTIONS = ['A-REAL', 'concurrency inside the compiled engine is outside this family: assumed, sampled by the bounded harness']
